@@ -141,6 +141,7 @@ func init() {
 		rules: []func(*Ctx){
 			ruleForbidden("C17.det", true),
 			ruleNoGlobalWrites("C17.det.globals"),
+			ruleVertexFilter("C17.dup"),
 			ruleLessStrict("C17.cmp", 2),
 			ruleSweepOrder("C17.order"),
 			ruleCmp3("C17.cmp3"),
@@ -197,15 +198,16 @@ func init() {
 func init() {
 	register(&propDef{
 		id: "C03",
-		explanation: "Decides structural clauses of C03: (panics) the inventory of explicit panics is exactly the reviewed one (the documented precision-range panic, plus four index-error panics whose structural premises — index shape and guards — are re-checked); (make) every make() length/capacity is provably non-negative by interval analysis with dominating-branch refinement; (div) every integer division/remainder has a non-zero constant divisor; (flag) c.succeeded is assigned on every path through executeInternal and read only afterwards; (index) constant indices into slice parameters are guarded by the function or by every caller, and the variable-index reads that are guarded by `index < len` on the confirmed tree stay guarded on the same index value; (ring) every ring walk exits on cursor==start (no one-node walks, no walks that cannot terminate on a well-formed ring). Does NOT decide nil-dereference freedom of the linked structures, variable-index safety or termination of invariant-dependent scans.",
+		explanation: "Decides structural clauses of C03: (panics) the inventory of explicit panics is exactly the reviewed one (the documented precision-range panic, plus four index-error panics whose structural premises — index shape and guards — are re-checked); (make) every make() length/capacity is provably non-negative by interval analysis with dominating-branch refinement; (div) every integer division/remainder has a non-zero constant divisor; (flag) c.succeeded is assigned on every path through executeInternal and read only afterwards; (index) constant indices into slice parameters are guarded by the function or by every caller, and in the scan functions the number of variable-index reads without a dominating `index < len` guard on the same index value does not grow beyond the reviewed baseline; (ring) every ring walk exits on cursor==start (no one-node walks, no walks that cannot terminate on a well-formed ring). Does NOT decide nil-dereference freedom of the linked structures, variable-index safety or termination of invariant-dependent scans.",
 		notDecided: []string{"nil-dereference freedom of AEL/SEL/OutPt links", "variable-index safety in general (only reads that were guarded on the confirmed tree are held to stay guarded: C03.index.var; 132 of 201 variable-index reads of slice parameters have no such guard and are not judged)", "termination of fixSelfIntersects / doMaxima / processIntersectList scans", "reachability of succeeded=false in addLocalMaxPoly", "memory/time blow-up for absurd radii (Ellipse step count)"},
 		rules: []func(*Ctx){
 			ruleVarIndex("C03.index.var", map[string]int{
-				// reads guarded on the confirmed tree by `index < len` / `index <= len-1` on the same index value
-				// (range loops are safe by construction and are not listed)
-				"(RectClip64).executeInternalPath64:path[i]": 3, "(RectClip64).tidyEdgePair:cw[i]": 15, "(RectClip64).tidyEdgePair:ccw[j]": 3,
-				"(ClipperOffset).buildNormals:path[i]": 1, "PointInPolygon:polygon[start]": 1, "SimplifyPath64:path[i]": 1, "SimplifyPathD:path[i]": 1,
-				"StripDuplicates:path[i]": 2, "TrimCollinear64:path[i]": 1, "startLocsAreClockwise:startLocs[i]": 1,
+				// per (function, slice-parameter position): how many variable-index reads are NOT dominated by `index < len`
+				// on the same index value on the confirmed tree (each reviewed: guarded through another variable, a
+				// wrap-around test or a loop invariant). The number must not grow.
+				"(RectClip64).executeInternalPath64:param#1": 2, "(RectClip64).tidyEdgePair:param#2": 0, "(RectClip64).tidyEdgePair:param#3": 13,
+				"(ClipperOffset).buildNormals:param#1": 2, "PointInPolygon:param#1": 9, "SimplifyPath64:param#0": 11, "SimplifyPathD:param#0": 11,
+				"StripDuplicates:param#0": 0, "TrimCollinear64:param#0": 12, "startLocsAreClockwise:param#0": 1,
 			}),
 			rulePanics("C03.panics"), ruleMakeSizes("C03.make"), ruleConstIndex("C03.index", map[string]string{
 				"TrimCollinear64:path": "path[0] == path[1] is evaluated only after `l < 2` was false, and l never exceeds len(path) (it starts there and is only decremented), so len(path) >= 2",
